@@ -122,11 +122,14 @@ func runSegments(sc segScript, chunks [][]byte, plan segPlan) (*segResult, error
 	q.OnResult = func(ctx context.Context, b proto.Block) error {
 		id := -1
 		for i := lastRes + 1; i <= len(sc.items); i++ {
-			n, ok := map[string]int{"hdr": 0, "data": 2, "totals": 1}[sc.items[i-1].K]
+			n, ok := map[string]int{"hdr": 0, "data": 2, "totals": 1, "bigdata": lifecycle.BigRows}[sc.items[i-1].K]
 			if !ok {
 				continue
 			}
 			x, y := lifecycle.ResultValues(i, n)
+			if n == lifecycle.BigRows {
+				x, y = lifecycle.ResultValuesBig(i)
+			}
 			if len(x) != resX.Rows() || len(y) != resY.Rows() {
 				continue
 			}
@@ -254,6 +257,10 @@ func segScripts(r *rand.Rand, n int) [][]lifecycle.Item {
 		{{K: "prog"}, {K: "bad"}},
 		{{K: "hdr"}, {K: "garbage"}},
 		{{K: "log", N: 1}, {K: "prog"}, {K: "pevents", N: 1}, {K: "eos"}},
+		// multi-byte varints: row counts, string lengths, counters, messages
+		{{K: "hdr"}, {K: "bigdata"}, {K: "bigprog"}, {K: "eos"}},
+		{{K: "bigprog"}, {K: "log", N: 130}, {K: "longexc"}},
+		{{K: "hdr"}, {K: "bigprog"}, {K: "bigdata"}, {K: "pevents", N: 140}, {K: "longexc"}},
 	}
 	out := append([][]lifecycle.Item{}, fixed...)
 	mid := []lifecycle.Item{{K: "data"}, {K: "data"}, {K: "prog"}, {K: "profile"}, {K: "log", N: 1}, {K: "log", N: 3}, {K: "pevents", N: 2}, {K: "totals"}, {K: "tcols"}}
@@ -292,7 +299,7 @@ func segmentsMain(args []string) error {
 	runs, caseNo := 0, 0
 	for si, items := range scripts {
 		for ci, comp := range comps {
-			if si >= 12 && (si+ci)%2 == 1 { // random scripts: two compression modes each
+			if si >= 15 && (si+ci)%2 == 1 { // random scripts: two compression modes each
 				continue
 			}
 			caseNo++
